@@ -6,5 +6,5 @@ import (
 	"verifharness/vt"
 )
 
-func TestProp(t *testing.T)   { vt.RunAll(t, 100) }
+func TestProp(t *testing.T)   { vt.RunAll(t, 25) }
 func TestReplay(t *testing.T) { vt.ReplayAll(t) }
